@@ -6,6 +6,7 @@ package runtime
 
 import (
 	"bytes"
+	"errors"
 	"fmt"
 	"html"
 	"io"
@@ -133,6 +134,10 @@ func isNilWithValueMethods(v any) bool {
 	}
 	return false
 }
+
+// maxShowDepth is the maximum nesting depth of a value shown in JavaScript and
+// JSON contexts.
+const maxShowDepth = 1000
 
 // Out returns the out writer.
 func (r *renderer) Out() io.Writer {
@@ -507,6 +512,16 @@ func showInCSSString(env *env, out io.Writer, value any) error {
 
 // showInJS shows value in JavaScript context.
 func showInJS(env *env, out io.Writer, value any) error {
+	return showInJSDepth(env, out, value, 0)
+}
+
+// showInJSDepth is like showInJS; depth is the nesting depth of value in the shown
+// value. A value nested too deeply, as a self-referencing one, is an error.
+func showInJSDepth(env *env, out io.Writer, value any, depth int) error {
+
+	if depth > maxShowDepth {
+		return errors.New("cannot show value: nested too deeply or self-referencing")
+	}
 
 	w := newStringWriter(out)
 
@@ -581,7 +596,7 @@ func showInJS(env *env, out io.Writer, value any) error {
 				_, err = w.WriteString(",")
 			}
 			if err == nil {
-				err = showInJS(env, out, v.Index(i).Interface())
+				err = showInJSDepth(env, out, v.Index(i).Interface(), depth+1)
 			}
 		}
 		if err == nil {
@@ -593,7 +608,7 @@ func showInJS(env *env, out io.Writer, value any) error {
 			s = "null"
 			break
 		}
-		return showInJS(env, out, v.Elem().Interface())
+		return showInJSDepth(env, out, v.Elem().Interface(), depth+1)
 	case reflect.Struct:
 		t := v.Type()
 		n := t.NumField()
@@ -630,7 +645,7 @@ func showInJS(env *env, out io.Writer, value any) error {
 					_, err = w.WriteString(`":`)
 				}
 				if err == nil {
-					err = showInJS(env, w, value.Interface())
+					err = showInJSDepth(env, w, value.Interface(), depth+1)
 				}
 				first = false
 			}
@@ -686,7 +701,7 @@ func showInJS(env *env, out io.Writer, value any) error {
 				_, err = w.WriteString(`":`)
 			}
 			if err == nil {
-				err = showInJS(env, out, keyPair.val)
+				err = showInJSDepth(env, out, keyPair.val, depth+1)
 			}
 		}
 		if err == nil {
@@ -708,6 +723,16 @@ func showInJS(env *env, out io.Writer, value any) error {
 
 // showInJSON shows value in JSON context.
 func showInJSON(env *env, out io.Writer, value any) error {
+	return showInJSONDepth(env, out, value, 0)
+}
+
+// showInJSONDepth is like showInJSON; depth is the nesting depth of value in the shown
+// value. A value nested too deeply, as a self-referencing one, is an error.
+func showInJSONDepth(env *env, out io.Writer, value any, depth int) error {
+
+	if depth > maxShowDepth {
+		return errors.New("cannot show value: nested too deeply or self-referencing")
+	}
 
 	w := newStringWriter(out)
 
@@ -792,7 +817,7 @@ func showInJSON(env *env, out io.Writer, value any) error {
 				_, err = w.WriteString(",")
 			}
 			if err == nil {
-				err = showInJSON(env, out, v.Index(i).Interface())
+				err = showInJSONDepth(env, out, v.Index(i).Interface(), depth+1)
 			}
 		}
 		if err == nil {
@@ -804,7 +829,7 @@ func showInJSON(env *env, out io.Writer, value any) error {
 			s = "null"
 			break
 		}
-		return showInJSON(env, out, v.Elem().Interface())
+		return showInJSONDepth(env, out, v.Elem().Interface(), depth+1)
 	case reflect.Struct:
 		t := v.Type()
 		n := t.NumField()
@@ -841,7 +866,7 @@ func showInJSON(env *env, out io.Writer, value any) error {
 					_, err = w.WriteString(`":`)
 				}
 				if err == nil {
-					err = showInJSON(env, w, value.Interface())
+					err = showInJSONDepth(env, w, value.Interface(), depth+1)
 				}
 				first = false
 			}
@@ -897,7 +922,7 @@ func showInJSON(env *env, out io.Writer, value any) error {
 				_, err = w.WriteString(`":`)
 			}
 			if err == nil {
-				err = showInJSON(env, out, keyPair.val)
+				err = showInJSONDepth(env, out, keyPair.val, depth+1)
 			}
 		}
 		if err == nil {
